@@ -568,6 +568,15 @@ inline void TotalOrderSort(py::list& list) {  // NOLINT[runtime/references]
 
 inline Py_ALWAYS_INLINE py::list DictKeys(const py::dict& dict) {
     const scoped_critical_section cs{dict};
+    if (!PyDict_CheckExact(dict.ptr())) [[unlikely]] {
+        // NOTE: `PyDict_Keys` reads the underlying hash table. The order of an `OrderedDict` lives
+        // in its own linked list (`move_to_end()`, `popitem(last=False)` + reinsert, ...).
+        auto keys = py::reinterpret_steal<py::list>(PySequence_List(dict.ptr()));
+        if (!keys) [[unlikely]] {
+            throw py::error_already_set();
+        }
+        return keys;
+    }
     return py::reinterpret_steal<py::list>(PyDict_Keys(dict.ptr()));
 }
 
